@@ -207,6 +207,17 @@ impl World {
             bin.extend_from_slice(&[0x06, 0x01, 0, 0, 0xff, 0xff, 0xff, 0xff]);
             out.push(Attribute::new_with_bin(Attribute::EXTENDED_COMMUNITY, bin).unwrap());
         }
+        // The order of the attributes in the list is not part of their meaning (an import policy
+        // appends what it sets, a peer may send them in any order): the token picks one of the
+        // rotations of the list, reversed for every other token, so lookups that assume an
+        // ascending list are exercised on lists that are not.
+        if out.len() > 1 {
+            let r = (tok as usize / 2) % out.len();
+            out.rotate_left(r);
+            if (tok / 2) % 2 == 1 {
+                out.reverse();
+            }
+        }
         // the attributes as received (original_attr) when import policy replaced the block:
         // another allocation, named by its own token
         if v.list().len() > 9 && v.at(9).u64() != tok {
@@ -490,22 +501,44 @@ fn run_rib_case(case: &Val) -> Val {
             2 => {
                 let addr = addr_of(l[2].u64());
                 let c = l[3].list().first().map(|c| w.ctr(c.u64()));
+                // The daemon purges family by family (unregister_peer, the timer handlers): the same
+                // purge of a family in which nobody holds a route comes first and must be a no-op for
+                // the family under test (its changes, if any, are observed like the others).
+                let shadow = Family::IPV6;
+                let (mut chs0, _) = match l[1].int() {
+                    0 => w.table.drop(addr, shadow),
+                    1 => w.table.drop_stale(addr, shadow, c.as_ref()),
+                    2 => w.table.drop_llgr_stale(addr, shadow, c.as_ref()),
+                    _ => w.table.drop_no_llgr(addr, shadow, c.as_ref()),
+                };
                 let (chs, _nhs) = match l[1].int() {
                     0 => w.table.drop(addr, fam),
                     1 => w.table.drop_stale(addr, fam, c.as_ref()),
                     2 => w.table.drop_llgr_stale(addr, fam, c.as_ref()),
                     _ => w.table.drop_no_llgr(addr, fam, c.as_ref()),
                 };
-                changes = chs;
+                chs0.extend(chs);
+                changes = chs0;
             }
             // [3, llgr, addr]
             3 => {
                 let addr = addr_of(l[2].u64());
+                // what the daemon does to the peer's OTHER families at the same moment, on a family
+                // in which nobody holds a route: at a graceful-restart drop the families without GR
+                // are dropped (TableManager::unregister_peer), at the start of the LLGR period the
+                // other LLGR families are marked too; neither may touch the family under test
                 changes = if l[1].bool() {
+                    w.table.restale_llgr(addr, Family::IPV6)
+                } else {
+                    let mut c0 = w.table.drop(addr, Family::IPV6).0;
+                    c0.extend(w.table.restale(addr, Family::IPV6_MC));
+                    c0
+                };
+                changes.extend(if l[1].bool() {
                     w.table.restale_llgr(addr, fam)
                 } else {
                     w.table.restale(addr, fam)
-                };
+                });
             }
             // [4, nh, reachable]
             4 => {
